@@ -829,7 +829,9 @@ def _paths(e, env=None, conds=frozenset(), effects=()):
                         nxt.append((cs, ef + (canon(x, en),), _prime(en, _mutated_names(x))))
                     else:
                         en_after = _prime(en, _mutated_names(x)) if _mutated_names(x) else en
-                        nxt.append((cs, ef + (canon(x, en),) if s['k'] == 'Semi' and
+                        # a call evaluated for its effect, with or without a trailing semicolon
+                        # (`unsafe { self.uset(i, v) }` as a unit-typed expression statement)
+                        nxt.append((cs, ef + (canon(x, en),) if s['k'] in ('Semi', 'Expr') and
                                     x.get('k') in ('MethodCall', 'Call') else ef, en_after))
                 else:
                     nxt.append((cs, ef, en))
